@@ -163,11 +163,26 @@ PROPS = {
                  "Non-trivial = depth >=2 and >=3 distinct dynamic types; distinct by tree hash."),
         "jobs": [{"run": "^TestC16", "shards": 16, "timeout_quick": 600, "timeout_thorough": 3000}],
     },
+    "C08": {
+        "rule": ("definitions from a hazard-injecting generator: structs whose fields are accepted types (as C01) or, with probability 1/6, a type "
+                 "the statement says must be refused - every unsupported kind (complex, array, chan, func, interface, error, uintptr, "
+                 "unsafe.Pointer) as field / pointer target / slice element / map key / map value, slices of float pointers, slices of slices of "
+                 "length-delimited elements (also through pointers), slices of maps, maps of maps, pointers to maps - optionally buried under 1-2 "
+                 "accepted wrappers; tags from a grammar (valid, missing, empty, non-numeric, negative, fractional, padded, hex, overflowing, "
+                 "'+3', '03', trailing comma, duplicates, unknown / misplaced / combined options); unexported and '-' fields of any type "
+                 "including unsupported kinds; compiled recursive types whose build fails late (unsupported kind, untagged field, duplicate "
+                 "index). Each definition is asked for as T, *T, []T, struct{X T}, map[string]T and T again on one instance. Oracle: no panic; "
+                 "definitions on the statement's must-refuse list (decided from the definition alone by the harness) give a non-empty error and "
+                 "no codec, stably through the history; a codec that is returned passes a smoke round trip and a strict walk; encoding equals "
+                 "that of the struct without its skipped fields, and skipped fields of a pre-filled target are unchanged by Unmarshal. "
+                 "Non-trivial = the definition must be refused, or has skipped fields; distinct by definition hash."),
+        "jobs": [{"run": "^TestC08", "shards": 32, "timeout_quick": 600, "timeout_thorough": 3000}],
+    },
 }
 
 # Properties not (yet) claimed, with the reason. Kept current by hand.
 NOT_APPLICABLE = {p: "check not built yet in this commit (work in progress; the technique applies, see DESIGN.md)" for p in
-                  ["C07", "C08", "C17", "C19", "C20"]}
+                  ["C07", "C17", "C19", "C20"]}
 
 # commits in /repo that add build-tag-guarded hooks
 HOOK_COMMITS = []
